@@ -304,16 +304,18 @@ func runStress(c StressCase) pbt.Verdict {
 			return giveUp()
 		}
 		// Work list of the round: consecutive jobs go to different torrents.
+		// Churn-only torrents first: their groups are the ones that can be expired when the
+		// announcers and the (possibly just released) cleanup loops start together.
 		var jobs []job
-		for p := 0; p < c.Keep; p++ {
-			jobs = append(jobs, job{0, p})
-		}
 		for q := 0; q < c.Churn; q++ {
-			for t := 0; t < torrents; t++ {
+			for t := torrents - 1; t >= 0; t-- {
 				if bits.RotateLeft32(rd.Churn, 3*t)&(1<<uint(q)) != 0 {
 					jobs = append(jobs, job{t, c.Keep + q})
 				}
 			}
+		}
+		for p := 0; p < c.Keep; p++ {
+			jobs = append(jobs, job{0, p})
 		}
 		renewing := 0
 		groupExpired := make([]bool, torrents)
